@@ -80,9 +80,9 @@ def r1(idx, rep):
         bad.append(f"errors ← {er!r} (expected every collected error as json)")
     rep.check(not bad, "R1", f"{fs.file}::ResultSerializer.save_result wiring", "; ".join(bad), K.where(fs, fs.node))
     # Result.variables / get_printouts / errors are the member's own
-    for prop, wantsrc in (("variables", "return self.csvpath.variables"), ("errors", "return self._errors")):
-        f = idx.method("Result", prop)
-        rep.check(wantsrc in unparse(f.node), "R1", f"{f.file}::Result.{prop}", unparse(f.node)[-80:], K.where(f, f.node))
+    for prop, want, st in (("variables", {"v": 1}, {"self.csvpath.variables": {"v": 1}, "self._csvpath.variables": {"v": 1}}), ("errors", ["E"], {"self._errors": ["E"]})):
+        f, ok, d = K.returns(idx, "Result", prop, want, store=st)
+        rep.check(ok, "R1", f"{f.file}::Result.{prop}", d, K.where(f, f.node))
     # _save: file ← content
     written = {}
 
@@ -163,8 +163,8 @@ def r1(idx, rep):
             "actual_data_file": "mdata.actual_data_file", "run_home": "mdata.run_home", "instance_home": "mdata.instance_home", "file_count": "mdata.file_count"}
     bad = [f"m[{k!r}] ← {st.get(k)} (expected {w})" for k, w in want.items() if st.get(k) != w]
     rep.check(not bad, "R1", f"{fm.file}::ResultRegistrar.metadata_update keys", "; ".join(bad), K.where(fm, fm.node))
-    frc = idx.method("ResultRegistrar", "completed")
-    rep.check("return self.result.csvpath.completed" in unparse(frc.node), "R1", f"{frc.file}::ResultRegistrar.completed", "", K.where(frc, frc.node))
+    frc, ok, d = K.returns(idx, "ResultRegistrar", "completed", "self.result.csvpath.completed")
+    rep.check(ok, "R1", f"{frc.file}::ResultRegistrar.completed", d, K.where(frc, frc.node))
     # run manifest
     fR = idx.method("ResultsRegistrar", "register_complete")
     rep.analysed(fR)
@@ -219,9 +219,13 @@ def r6(idx, rep):
             names = sorted(e.value for e in n.iter.elts if isinstance(e, ast.Constant))
     want = sorted(["data.csv", "meta.json", "unmatched.csv", "printouts.txt", "errors.json", "vars.json"])
     rep.check(names == want, "R6", f"{ff.file}::ResultRegistrar.file_fingerprints coverage", f"fingerprints cover {names}, documented {want}", K.where(ff, ff.node))
-    fp = idx.method("ResultRegistrar", "_fingerprint")
-    src = unparse(fp.node)
-    rep.check("hashlib.file_digest(f, hashlib.sha256)" in src and "open(path, 'rb')" in src, "R6", f"{fp.file}::ResultRegistrar._fingerprint sha256 of the bytes", src[:200], K.where(fp, fp.node))
+    from . import store_model as SMo
+    fsb = [SMo.MFS()]
+    fsb[0].put("D/data.csv", "a,b\n1,2\n")
+    fp, ps = K.sym_result(idx, "ResultRegistrar", "_fingerprint", args={"path": "D/data.csv"}, handlers=SMo.handlers(fsb))
+    fp2, ps2 = K.sym_result(idx, "ResultRegistrar", "_fingerprint", args={"path": "D/none.csv"}, handlers=SMo.handlers(fsb))
+    rep.check(len(ps) == 1 and ps[0].result == ("return", SMo.MFS.sha("a,b\n1,2\n")) and ps2[0].result == ("return", None), "R6",
+              f"{fp.file}::ResultRegistrar._fingerprint sha256 of the bytes", f"{ps[0].result} / {ps2[0].result}", K.where(fp, fp.node))
     # run folds
     for meth, pred in (("all_completed", "{v}.csvpath.completed"),):
         f = idx.method("ResultsRegistrar", meth)
@@ -234,5 +238,5 @@ def r6(idx, rep):
     it = Interp(idx, types={"self": "ResultsRegistrar"}, unknown_calls="residual")
     ps = it.run_all(fe, store={"self.results": [Obj("r0"), Obj("r1")], "r0.errors_count": 2, "r1.errors_count": 3})
     rep.check(len(ps) == 1 and ps[0].result == ("return", 5), "R6", f"{fe.file}::ResultsRegistrar.error_count sum", f"{ps[0].result}", K.where(fe, fe.node))
-    fr = idx.method("Result", "errors_count")
-    rep.check("len(self._errors)" in unparse(fr.node), "R6", f"{fr.file}::Result.errors_count", "", K.where(fr, fr.node))
+    fr, ok, d = K.returns(idx, "Result", "errors_count", 2, store={"self._errors": ["a", "b"]})
+    rep.check(ok, "R6", f"{fr.file}::Result.errors_count", d, K.where(fr, fr.node))
